@@ -453,6 +453,7 @@ C05_INVERSE(second)
 C05_INVERSE(minute)
 C05_INVERSE(hour)
 C05_INVERSE(day)
+C05_INVERSE(year)
 /* reachability probe for the inverse-law lemmas (run by hand: its assertion must FAIL) */
 void pl_C05_probe(void)
 {
